@@ -286,3 +286,16 @@ def tr31_wrap(kbpk, fields, blks, key, pad, rng=None, ext_all=False, lower=False
         enc = cbc_encrypt(kind, kbek, mac, clear)
     tail = enc.hex() + mac.hex()
     return hdr + (tail if lower else tail.upper())
+
+
+def tr31_clear(kbpk, s):
+    """the decrypted key data section (2-byte length, key, random padding) of a genuine block"""
+    version = s[0]
+    f, blks, hl = tr31_parse_header(s)
+    ml, bs = TR31_MAC[version], TR31_BS[version]
+    kind = "aes" if version == "D" else "des"
+    mac = bytes.fromhex(s[-2 * ml:])
+    enc = bytes.fromhex(s[hl:-2 * ml])
+    kbek, _ = tr31_derive(version, kbpk)
+    iv = s[:8].encode("ascii") if version in "AC" else mac
+    return cbc_decrypt(kind, kbek, iv, enc)
